@@ -1465,3 +1465,117 @@ Proof.
   intros [H1 H2 (rb & rridx & H3) H4 H5 H6].
   exact (history_refines ld root bstore H1 H2 rb rridx H3 levels H4 H5 H6).
 Qed.
+
+(* ================= full scans (C01): next from a fresh cursor yields the content in order, then None;
+   prev yields it in reverse ================= *)
+Section Scans.
+  Variables (ld : N -> N -> outcome block) (root levels : N) (bstore : N -> option (block * list entry * list nat)).
+  Hypothesis W : wf_store ld root levels bstore.
+  Let es := content root levels bstore.
+
+  Definition expect (l : list entry) : list (option (option entry)) := map (fun e => Some (Some e)) l ++ [Some None].
+
+  Lemma skipn_S_nth {A} (l : list A) i x : nth_error l i = Some x -> skipn i l = x :: skipn (S i) l.
+  Proof.
+    revert l; induction i as [|i IH]; intros [|e l] E; cbn [nth_error] in E; try discriminate.
+    - injection E as ->. reflexivity.
+    - cbn [skipn]. apply IH. exact E.
+  Qed.
+
+  (* forward: from At i, the remaining entries are skipn (S i) es *)
+  Lemma spec_next_from_at : forall k i, (S i + k = length es)%nat ->
+    snd (spec_ops root bstore levels (At (N.of_nat i)) (repeat ONext (S k))) = expect (skipn (S i) es) /\
+    admissible_ops root bstore levels (At (N.of_nat i)) (repeat ONext (S k)).
+  Proof.
+    induction k as [|k IH]; intros i Hk.
+    - cbn [repeat spec_ops admissible_ops aspec fst snd]. change (es_all root bstore levels) with es.
+      replace (N.of_nat i + 1) with (N.of_nat (S i)) by lia. rewrite nthN_nat.
+      assert (E : nth_error es (S i) = None) by (apply nth_error_None; lia). rewrite E.
+      cbn [at_result fst snd]. rewrite skipn_all2 by lia. split; [reflexivity|]. split; [intro H; discriminate|exact I].
+    - change (repeat ONext (S (S k))) with (ONext :: repeat ONext (S k)).
+      cbn [spec_ops admissible_ops aspec fst snd]. change (es_all root bstore levels) with es.
+      replace (N.of_nat i + 1) with (N.of_nat (S i)) by lia. rewrite nthN_nat.
+      destruct (nth_error es (S i)) as [e|] eqn:E; [|apply nth_error_None in E; lia].
+      cbn [at_result fst snd]. destruct (IH (S i) ltac:(lia)) as [A B].
+      change (es_all root bstore levels) with es in A. rewrite A. rewrite (skipn_S_nth es (S i) e E). split; [reflexivity|]. split; [intro H; discriminate|exact B].
+  Qed.
+
+  Theorem scan_forward : (0 < length es)%nat ->
+    exists st' rs, run_ops ld root levels cs_fresh (repeat ONext (S (length es))) = Done (st', rs) /\
+      rs = map Some es ++ [None].
+  Proof.
+    intro Hl.
+    assert (Hspec : snd (spec_ops root bstore levels Fresh (repeat ONext (S (length es)))) = expect es /\
+                    admissible_ops root bstore levels Fresh (repeat ONext (S (length es)))).
+    { destruct (length es) as [|n] eqn:En; [lia|].
+      change (repeat ONext (S (S n))) with (ONext :: repeat ONext (S n)).
+      cbn [spec_ops admissible_ops aspec fst snd]. change (es_all root bstore levels) with es.
+      destruct es as [|e0 es'] eqn:Ees; [discriminate|]. cbn [at_result fst snd].
+      destruct (spec_next_from_at n 0 ltac:(rewrite Ees; cbn [length] in *; lia)) as [A B].
+      change (N.of_nat 0) with 0 in A, B. change (es_all root bstore levels) with es in A. rewrite Ees in A. cbn [skipn] in A. rewrite A.
+      split; [reflexivity|]. split; [intro H; discriminate|exact B]. }
+    destruct Hspec as [Hs Ha].
+    destruct (R_history ld root levels bstore W _ Fresh cs_fresh (fresh_rel root bstore levels) Ha) as (st' & rs & E & _ & Hrs).
+    exists st', rs. split; [exact E|]. rewrite Hs in Hrs. unfold expect in Hrs.
+    clear - Hrs. revert rs Hrs. generalize es as l. induction l as [|e l IH]; intros rs H; cbn [map app] in *.
+    - inversion H as [|? ? ? ? H1 H2]; subst. inversion H2; subst. cbn [res_ok] in H1. subst. reflexivity.
+    - inversion H as [|? ? ? ? H1 H2]; subst. cbn [res_ok] in H1. subst. f_equal. apply IH. exact H2.
+  Qed.
+
+  Lemma firstn_S_nth {A} (l : list A) i x : nth_error l i = Some x -> firstn (S i) l = firstn i l ++ [x].
+  Proof.
+    revert l; induction i as [|i IH]; intros [|e l] E; cbn [nth_error] in E; try discriminate.
+    - injection E as ->. reflexivity.
+    - cbn [firstn app]. f_equal. apply IH. exact E.
+  Qed.
+
+  Lemma last_opt_nth' {A} (l : list A) : last_opt l = nth_error l (length l - 1).
+  Proof.
+    induction l as [|x l IH]; [reflexivity|]. cbn [last_opt]. destruct l as [|y l]; [reflexivity|].
+    rewrite IH. cbn [length]. replace (S (S (length l)) - 1)%nat with (S (S (length l) - 1)) by lia. reflexivity.
+  Qed.
+
+  Lemma spec_prev_from_at : forall i, (i < length es)%nat ->
+    snd (spec_ops root bstore levels (At (N.of_nat i)) (repeat OPrev (S i))) = expect (rev (firstn i es)) /\
+    admissible_ops root bstore levels (At (N.of_nat i)) (repeat OPrev (S i)).
+  Proof.
+    induction i as [|i IH]; intro Hi.
+    - cbn [repeat spec_ops admissible_ops aspec fst snd N.of_nat N.eqb at_result firstn rev]. change (0 =? 0) with true. cbn iota.
+      cbn [at_result fst snd]. split; [reflexivity|]. split; [intro H; discriminate|exact I].
+    - change (repeat OPrev (S (S i))) with (OPrev :: repeat OPrev (S i)).
+      cbn [spec_ops admissible_ops aspec fst snd]. change (es_all root bstore levels) with es.
+      destruct (N.eqb_spec (N.of_nat (S i)) 0); [lia|].
+      replace (N.of_nat (S i) - 1) with (N.of_nat i) by lia. rewrite nthN_nat.
+      destruct (nth_error es i) as [e|] eqn:E; [|apply nth_error_None in E; lia].
+      cbn [at_result fst snd]. destruct (IH ltac:(lia)) as [A B].
+      change (es_all root bstore levels) with es in A. rewrite A.
+      rewrite (firstn_S_nth es i e E), rev_app_distr. split; [reflexivity|]. split; [intro H; discriminate|exact B].
+  Qed.
+
+  Theorem scan_backward : (0 < length es)%nat ->
+    exists st' rs, run_ops ld root levels cs_fresh (repeat OPrev (S (length es))) = Done (st', rs) /\
+      rs = map Some (rev es) ++ [None].
+  Proof.
+    intro Hl.
+    assert (Hspec : snd (spec_ops root bstore levels Fresh (repeat OPrev (S (length es)))) = expect (rev es) /\
+                    admissible_ops root bstore levels Fresh (repeat OPrev (S (length es)))).
+    { destruct (length es) as [|n] eqn:En; [lia|].
+      change (repeat OPrev (S (S n))) with (OPrev :: repeat OPrev (S n)).
+      cbn [spec_ops admissible_ops aspec fst snd]. change (es_all root bstore levels) with es.
+      rewrite last_opt_nth'. rewrite En. replace (S n - 1)%nat with n by lia.
+      destruct (nth_error es n) as [e|] eqn:E; [|apply nth_error_None in E; lia].
+      cbn [at_result fst snd]. rewrite len_length, En. replace (N.of_nat (S n) - 1) with (N.of_nat n) by lia.
+      destruct (spec_prev_from_at n ltac:(lia)) as [A B].
+      change (es_all root bstore levels) with es in A. rewrite A.
+      assert (Hes : es = firstn n es ++ [e]).
+      { rewrite <- (firstn_S_nth es n e E). rewrite <- En. symmetry. apply firstn_all. }
+      assert (Hrev : rev es = e :: rev (firstn n es)) by (rewrite Hes at 1; rewrite rev_app_distr; reflexivity).
+      rewrite Hrev. split; [reflexivity|]. split; [intro H; discriminate|exact B]. }
+    destruct Hspec as [Hs Ha].
+    destruct (R_history ld root levels bstore W _ Fresh cs_fresh (fresh_rel root bstore levels) Ha) as (st' & rs & E & _ & Hrs).
+    exists st', rs. split; [exact E|]. rewrite Hs in Hrs. unfold expect in Hrs.
+    clear - Hrs. revert rs Hrs. generalize (rev es) as l. induction l as [|e l IH]; intros rs H; cbn [map app] in *.
+    - inversion H as [|? ? ? ? H1 H2]; subst. inversion H2; subst. cbn [res_ok] in H1. subst. reflexivity.
+    - inversion H as [|? ? ? ? H1 H2]; subst. cbn [res_ok] in H1. subst. f_equal. apply IH. exact H2.
+  Qed.
+End Scans.
